@@ -636,6 +636,17 @@ def insertByName (c : Client) : List Client → List Client
 
 def Index.rangeByName (ci : Index) : List Client := ci.clients.foldr insertByName []
 
+/-- `clients.runtime_sources` of the configuration: where RUNTIME client
+information (names for the dashboard) may come from.  `Init` hands the DHCP
+server to the storage whatever these say; only `RuntimeSourceDHCP` (runtime
+information) and the hosts-file container are gated by them. -/
+structure RuntimeSources where
+  whois : Bool
+  arp : Bool
+  rdns : Bool
+  dhcp : Bool
+  hostsFile : Bool
+
 /-- One iteration of the loop of `clientsContainer.Init`: a record that
 `toPersistent` refuses aborts the start. -/
 def ClientObject.load (o : ClientObject) : Option Client :=
@@ -653,8 +664,10 @@ def addAll (s : Storage) : List Client → Option Storage
 /-- Write the configuration file, stop, start again: `forConfig`, then
 `toPersistent` and `NewStorage` (`clientsContainer.Init`).  The DHCP server is
 a different component and keeps its leases.  When a record is refused the
-program does not come up (`err restartFailed`, old state shown). -/
-def Storage.restart (fix : Bool) (s : Storage) : Storage × Res :=
+program does not come up (`err restartFailed`, old state shown).  `_src` is the
+`runtime_sources` section the new process reads: `Init` does not let it touch
+the persistent registry or the DHCP interface of the storage. -/
+def Storage.restart (fix : Bool) (_src : RuntimeSources) (s : Storage) : Storage × Res :=
   let objs := s.index.rangeByName.map (Client.forConfig fix)
   match objs.mapM ClientObject.load with
   | none => (s, .err .restartFailed)
